@@ -1,11 +1,13 @@
 package security
 
 import (
+	"context"
 	"io"
 	"net/http"
 	"net/url"
 
 	"github.com/thushan/olla/internal/config"
+	"github.com/thushan/olla/internal/core/ports"
 	"github.com/thushan/olla/internal/zzverif/gosym"
 )
 
@@ -115,5 +117,28 @@ func VerifRateLimit() {
 		gosym.Assert(admitted <= allowance, "admitted requests from one IP never exceed burst + rate x elapsed, whatever ports and paths it uses")
 		gosym.Assert(admittedHealth <= allowance, "health-check requests have their own bucket with the same bound")
 	}
+	gosym.Reach("end")
+}
+
+// VerifRateLimitConcurrent: G concurrent requests of one client IP on its first contact (burst
+// BURST, no time passes), under every interleaving of their synchronisation steps: at most BURST
+// are admitted - concurrent senders do not get a bucket each.
+func VerifRateLimitConcurrent() {
+	G, burst := gosym.Param("G"), gosym.Param("BURST")
+	rl := NewRateLimitValidator(config.ServerRateLimits{PerIPRequestsPerMinute: 1, BurstSize: burst}, nil, zzLog{})
+	admitted, done := 0, 0
+	for i := 0; i < G; i++ {
+		go func() {
+			res, err := rl.Validate(context.Background(), ports.SecurityRequest{ClientID: "198.51.100.7", Endpoint: "/olla/proxy/x", Method: "POST"})
+			if err == nil && res.Allowed {
+				admitted++
+			}
+			done++
+		}()
+	}
+	gosym.RunPending()
+	gosym.Assert(done == G, "every request gets a verdict")
+	gosym.Assert(admitted <= burst, "concurrent first-contact requests of one IP share one bucket: at most burst are admitted")
+	gosym.Assert(admitted >= 1, "the burst is usable")
 	gosym.Reach("end")
 }
